@@ -163,43 +163,49 @@ func TestVerif_C40(t *testing.T) {
 	r := verifkit.Start(t, "C40", "exploration")
 	defer r.Finish()
 	maxLen := r.Pick(4, 5)
-	r.SetRule(fmt.Sprintf("part A: EVERY sequence of 1..%d events over {Reset(t,dur) t in 0..6 dur in 1..4, UpdateTime(t) t in 0..6} (times may go backwards) on timers with 2 new-epoch handlers and delta handlers 1/2,1/3,3/4,1/1,0/1, lock-step against a reference state machine; part B: seeded random sequences of 6..40 events with large times/durations; part C: concurrent Reset||UpdateTime histories checked with porcupine; distinct = sequences containing a reset after which at least one handler fired", maxLen))
+	r.SetRule(fmt.Sprintf("part A: EVERY sequence of 1..4 events over {Reset(t,dur) t in 0..6 dur in 1..4, UpdateTime(t) t in 0..6} (thorough: also every sequence of 1..%d events with t in 0..4, dur in 1..3; times may go backwards) on timers with 2 new-epoch handlers and delta handlers 1/2,1/3,3/4,1/1,0/1, lock-step against a reference state machine; part B: seeded random sequences of 6..40 events with large times/durations; part C: concurrent Reset||UpdateTime histories checked with porcupine; distinct = sequences containing a reset after which at least one handler fired", maxLen))
 	r.Assume("sub-epoch fractions are <= 1 (a fraction > 1 schedules beyond the epoch end and is outside the statement)")
 	r.Assume("where duration*mul/div is not an integer number of milliseconds both roundings of the instant are accepted")
 
 	// ---- part A: exhaustive small histories
-	var alphabet []vf40Ev
-	for tt := uint64(0); tt <= 6; tt++ {
-		alphabet = append(alphabet, vf40Ev{T: tt})
-		for d := uint64(1); d <= 4; d++ {
-			alphabet = append(alphabet, vf40Ev{Reset: true, T: tt, Dur: d})
-		}
-	}
-	seq := make([]vf40Ev, 0, maxLen)
-	var sig string
 	sampled := 0
-	var rec func(depth int)
-	rec = func(depth int) {
-		if depth > 0 {
-			sig = ""
-			vf40RunSeq(r, seq, &sig)
-			if sig != "" && sampled < 3 && depth == maxLen && seq[0].Reset && !seq[1].Reset {
-				sampled++
-				r.Sample(sig)
+	var sig string
+	enumerate := func(maxT, maxDur uint64, maxLen int) {
+		var alphabet []vf40Ev
+		for tt := uint64(0); tt <= maxT; tt++ {
+			alphabet = append(alphabet, vf40Ev{T: tt})
+			for d := uint64(1); d <= maxDur; d++ {
+				alphabet = append(alphabet, vf40Ev{Reset: true, T: tt, Dur: d})
 			}
 		}
-		if depth == maxLen || r.Violations() > 50 {
-			return
+		seq := make([]vf40Ev, 0, maxLen)
+		var rec func(depth int)
+		rec = func(depth int) {
+			if depth > 0 {
+				sig = ""
+				vf40RunSeq(r, seq, &sig)
+				if sig != "" && sampled < 3 && depth == maxLen && seq[0].Reset && !seq[1].Reset {
+					sampled++
+					r.Sample(sig)
+				}
+			}
+			if depth == maxLen || r.Violations() > 50 {
+				return
+			}
+			for _, e := range alphabet {
+				seq = append(seq, e)
+				rec(depth + 1)
+				seq = seq[:depth]
+			}
 		}
-		for _, e := range alphabet {
-			seq = append(seq, e)
-			rec(depth + 1)
-			seq = seq[:depth]
-		}
+		rec(0)
+		r.Count(fmt.Sprintf("exhaustive_len%d_alphabet%d", maxLen, len(alphabet)), 1)
 	}
-	rec(0)
-	r.Count("exhaustive_max_len", maxLen)
-	r.Count("alphabet_size", len(alphabet))
+	enumerate(6, 4, 4) // 35 events, every sequence of length <= 4
+	if r.Thorough() {
+		enumerate(4, 3, 5) // 20 events, every sequence of length <= 5
+	}
+	_ = maxLen
 
 	// ---- part B: random longer histories with realistic magnitudes
 	nB := r.Pick(20000, 400000)
@@ -238,7 +244,16 @@ func TestVerif_C40(t *testing.T) {
 	r.Count("random_long_histories", nB)
 
 	// ---- part C: concurrent histories, linearizability against the reference machine
-	vf40Concurrent(r)
+	vf40Concurrent(r, r.Pick(300, 5000))
+}
+
+// TestVerif_C40Race is the same concurrent workload, meant to be run under the race
+// detector (thorough tier): the mutex-protected state must not be touched unsynchronised.
+func TestVerif_C40Race(t *testing.T) {
+	r := verifkit.Start(t, "C40", "exploration")
+	defer r.Finish()
+	r.SetRule("concurrent Reset||UpdateTime histories (2-4 goroutines x 2-4 calls) under the race detector, each checked with porcupine against the reference machine; distinct = distinct recorded histories")
+	vf40Concurrent(r, 3000)
 }
 
 // ---------------------------------------------------------------------------------------
@@ -265,7 +280,7 @@ type vf40State struct {
 	At      [vf40NE + 5]uint64
 }
 
-func vf40Concurrent(r *verifkit.Run) {
+func vf40Concurrent(r *verifkit.Run, rounds int) {
 	nH := vf40NE + len(vf40Fracs)
 	model := porcupine.Model{
 		Init: func() any { return vf40State{} },
@@ -305,7 +320,6 @@ func vf40Concurrent(r *verifkit.Run) {
 		DescribeOperation: func(in, out any) string { return fmt.Sprintf("%+v -> %b", in, out) },
 	}
 
-	rounds := r.Pick(300, 5000)
 	illegal, unknown := 0, 0
 	for c := 0; c < rounds; c++ {
 		rng := r.Rand("conc", c)
